@@ -110,6 +110,7 @@ class Engine:
         self.houdini_fixed = houdini is not None and not ctx.finite
         self.trial = 0                    # >0: inside a Houdini trial pass (VCs assumed, not checked)
         self.skip_names = set()
+        self.lazy_entry = {}
         self.solver_time = 0.0
         self.queries = 0
         self.cur: Contract | None = None
@@ -192,6 +193,10 @@ class Engine:
         if self.trial:
             st.assume(goal)
             return True
+        if self.prop is not None and serves and self.prop not in serves:
+            # proved under the properties it serves; assumed here
+            st.assume(goal)
+            return True
         if full in self.skip_names:
             # already refuted in finite scope: the unbounded attempt would only burn its budget on `unknown`
             st.assume(goal)
@@ -252,6 +257,8 @@ class Engine:
     def coerce(self, sv: SV, t: T) -> SV:
         if sv.t == t:
             return sv
+        if sv.t.k == 'emptycoll' and sv.t.name == 'dict' and t == U('Ctx'):
+            return SV(t, z3.Const('EMPTY_CTX', self.ctx.sort(t)))
         if sv.t.k == 'emptycoll':
             if t.k in ('set', 'list'):
                 return SV(t, self.ctx.empty_set(t.args[0]))
@@ -322,16 +329,16 @@ class Engine:
         return self.R.records.get(t.name) if t.k == 'u' else None
 
     def heap_record_field(self, st: State, sort: str, fld: str, heap=None):
-        """Heap array of a mutable record field, created lazily.  The entry value lives in st.old (shared by
-        all forks), so a path that first touches the field late still sees the same entry value."""
+        """Heap array of a mutable record field, created lazily.  A heap that lacks the key has never written the
+        field, so its value there is the function-entry value, kept in one per-function registry."""
         heap = st.heap if heap is None else heap
         key = f'{sort}.{fld}'
         if key not in heap:
-            if key not in st.old:
+            if key not in self.lazy_entry:
                 rec = self.R.records[sort]
                 vt = parse_type(rec.mutable[fld])
-                st.old[key] = SV(T('lift', (U(sort), vt)), self.ctx.fresh_lifted(U(sort), vt, key))
-            heap[key] = st.old[key]
+                self.lazy_entry[key] = SV(T('lift', (U(sort), vt)), self.ctx.fresh_lifted(U(sort), vt, key))
+            heap[key] = self.lazy_entry[key]
         return heap[key]
 
     def attr(self, st: State, base: SV, name: str, spec: bool, heap=None) -> SV:
@@ -528,6 +535,8 @@ class Evaluator:
             return SV(T('enumcls', (), nm), nm)
         if nm in self.R.exc_parents or nm in self.R.exc_parents.values():
             return SV(T('exccls', (), nm), nm)
+        if nm in self.R.global_objects:
+            return SV(OBJ(self.R.global_objects[nm]), f'@{nm}')
         if nm in self.R.const_names:
             t = U(self.R.const_names[nm])
             return SV(t, z3.Const(f'const_{nm}', self.ctx.sort(t)))
@@ -880,10 +889,10 @@ class Evaluator:
         vprobe = pe.ev(n.value)
         pe.may_raise = saved
         kt = kprobe.t
-        if not (z3.eq(kprobe.z, probe_k) or self.is_injective_view(kprobe, probe_k)):
-            raise Unsupported('dict comprehension key must be the iteration key')
+        if z3.eq(kprobe.z, probe_k) and dom_t == U('Inst') and self.hint is not None and self.hint.k == 'map' and self.hint.args[0] == U('Task'):
+            return self.dictcomp_by_value(n, g, dom_t, body)
         if not z3.eq(kprobe.z, probe_k):
-            raise Unsupported('dict comprehension key must be the iteration key (views not yet supported)')
+            raise Unsupported('dict comprehension key must be the iteration key')
         vt = vprobe.t
         dom = self.ctx.set_comp(dom_t, lambda k: body(k)[1])
         val = self.ctx.fresh_lifted(dom_t, vt, 'dcomp')
@@ -898,6 +907,30 @@ class Evaluator:
         self.st.assume(self.ctx.forall([dom_t], defn))
         self.comp_safety(dom_t, body, [n.key, n.value])
         return SV(MAP(dom_t, vt), {'dom': dom, 'val': val})
+
+    def dictcomp_by_value(self, n, g, dom_t, body):
+        """{i: e(i) for i in insts}: a dict keyed by task *value* (== / hash), so equal instances share one key."""
+        f = self.ctx.func('Inst_to_Task', [U('Inst')], U('Task'))
+        probe = self.ctx.fresh(dom_t, 'probe')
+        e0, _ = body(probe)
+        e0.may_raise = []
+        sv0 = e0.ev(n.value)
+        vt = sv0.t
+        kt = U('Task')
+        dom = self.ctx.set_comp(kt, lambda k: self.ctx.exists([dom_t], lambda i: z3.And(body(i)[1], f(i) == k)))
+        val = self.ctx.fresh_lifted(kt, vt, 'dcompv')
+
+        def defn(i):
+            e, c = body(i)
+            saved = e.may_raise
+            e.may_raise = []
+            v = e.ev(n.value)
+            e.may_raise = saved
+            return z3.Implies(c, self.ctx.eq(vt, self.ctx.select(vt, val, f(i)), v.z))
+        self.st.assume(self.ctx.forall([dom_t], defn))
+        self.comp_safety(dom_t, body, [n.key, n.value])
+        out = SV(MAP(kt, vt), {'dom': dom, 'val': val})
+        return out
 
     def is_injective_view(self, sv, k):
         return False
@@ -1169,7 +1202,7 @@ class CallEval:
         conj = []
         for d in self.eng.class_chain(cls):
             for cl in d.invariant:
-                if self.eng.active(cl):
+                if True:  # assumed regardless of the property slice
                     sub = State([{'self': obj}], self.e.heap, self.e.st.pc, self.e.st.old)
                     e = Evaluator(self.eng, sub, spec=True, heap=self.e.heap)
                     conj.append(self.eng.truth(e.ev(ast.parse(cl.expr.strip(), mode='eval').body)))
@@ -1411,6 +1444,6 @@ class CallEval:
         b2 = dict(binds)
         b2['result'] = res
         for cl in c.ensures:
-            if self.eng.active(cl):
+            if True:  # assumed regardless of the property slice
                 self.e.st.assume(self.eng.eval_clause(self.e.st, cl, b2, heap=self.e.heap, old=self.e.heap))
         return res
